@@ -25,7 +25,7 @@ RULE = ("k=2..3 instances, 3-8 requests each from {begin-session (with / without
         "instance lies between two requests of the other.")
 ASSUMPTIONS = ["the instance that is stopped / timed out is not compared after that point; all others are",
                "responses are compared as parsed JSON (key order ignored), instance ids normalised"]
-REQUIRED = {"malformed_foreign_requests": 10, "file_based_factories": 5, "solo_replays_in_fresh_process": 100, "interleavings": 200, "responses_compared": 2000, "solo_replays": 100}
+REQUIRED = {"twin_cases": 5, "short_lived_responses_after_expiry": 30, "malformed_foreign_requests": 10, "file_based_factories": 5, "solo_replays_in_fresh_process": 100, "interleavings": 200, "responses_compared": 2000, "solo_replays": 100}
 BUDGET_S = {"quick": 110, "thorough": 1500}
 
 
@@ -67,6 +67,10 @@ def gen_cases(tier, seed):
     for i in range(60 if tier == "quick" else 1000):
         cases.append(dict(kind="random", seed=rng.randrange(10 ** 9), shared=bool(i % 2), adapter=bool(i % 4 == 0), files=(i % 5 == 2), k=rng.choice([2, 3]),
                           kill=rng.choice([None, "stop", "timeout", "stop"]), creation=["upfront", "lazy", "batch"][i % 3]))
+    # twins: two instances that receive the same requests in lockstep on a server with an adapter; one of them times out in the middle and
+    # is restored from its own state file by its next request
+    for i in range(6 if tier == "quick" else 60):
+        cases.append(dict(kind="twins", seed=rng.randrange(10 ** 9), shared=bool(i % 2), adapter=True, files=False, n=rng.randint(5, 9), creation="upfront"))
     return cases
 
 
@@ -165,6 +169,14 @@ def run_case(case):
         scripts = {0: make_script(rng, 3, 0), 1: make_script(rng, 3, 1)}
         orders = [list(o) for o in sorted(set(itertools.permutations([0, 0, 0, 1, 1, 1])))]
         kill, kill_at, short = None, None, None
+    elif case["kind"] == "twins":
+        one = make_script(rng, case["n"], 0)
+        scripts = {0: one, 1: json.loads(json.dumps(one))}
+        order = [i for _ in one for i in (0, 1)]
+        cut = 2 * rng.randint(2, len(one) - 1)
+        orders = [order, order[:cut] + [1, 0] * ((len(order) - cut) // 2)]
+        kill, short, kill_at = "timeout", 1, cut
+        counters["twin_cases"] = 1
     else:
         k = case["k"]
         scripts = {i: make_script(rng, rng.randint(3, 8), i) for i in range(k)}
